@@ -87,7 +87,7 @@ func judge(class string, key []byte, o *fw.Obs) {
 	// In between the calls the same goroutine verifies unrelated signatures that are rejected at every stage
 	// (undecodable R, undecodable key, S >= L, wrong length) or accepted: what the package computes for
 	// (seed, msg) must not depend on that history.
-	seedIn, msgIn := fw.Spare(seed, 96), fw.Spare(msg, 200)
+	seedIn, msgIn := fw.Spare(seed, 96), fw.NilIfEmpty(fw.Spare(msg, 200), seed[4]) // an empty message is nil in half of the cases
 	dist := disturbances(seed, stdPriv, msg, stdSig)
 	dOK := true
 	disturb := func(i int) {
